@@ -614,10 +614,10 @@ func (cr *chainRun) run(nBlocks int) {
 		cs = next
 		applied++
 		hist = append(hist, histEntry{prev, b})
-		if applied > 2 && r.Intn(4) == 0 {
+		if applied > 2 && r.Intn(6) == 0 {
 			// a reorg: undo the last one to three blocks, newest first; the chain continues from
 			// the common parent with different blocks
-			depth := 1 + r.Intn(3)
+			depth := []int{1, 1, 1, 1, 1, 2, 2, 2, 3, 3}[r.Intn(10)]
 			if depth > applied-2 {
 				depth = applied - 2
 			}
